@@ -30,10 +30,16 @@ structure Obs where
   reUn : Res Packet     -- Unmarshal of those bytes into a fresh Packet (`err other` when there are none)
   ids  : List UInt8     -- Header.GetExtensionIDs() of the decoded packet ([] when nothing was decoded)
   gets : List (Option Bytes)   -- Header.GetExtension(q) for the queried ids, nil = none ([] when nothing was decoded)
+  unDirty : Res Packet  -- Unmarshal of the same bytes into a Packet that decoded `prev` before
   deriving DecidableEq, Repr
 
-/-- the model's observation of byte string `buf` with `Get` queries `qs` -/
-def modelObs (buf : Bytes) (qs : List UInt8) : Obs :=
+/-- the receiver after decoding `prev` (a fresh one if `prev` is not accepted: the harness resets it) -/
+def dirtyReceiver (prev : Bytes) : Packet :=
+  match pktUnmarshal {} prev with | .ok q => q | _ => {}
+
+/-- the model's observation of byte string `buf` with `Get` queries `qs`; `prev` is what the reused
+    receiver decoded before -/
+def modelObs (buf : Bytes) (qs : List UInt8) (prev : Bytes := []) : Obs :=
   let u := pktUnmarshal {} buf
   let re : Res Bytes := match u with | .ok p => pktMarshal p | _ => .err .other
   { un := (u.map canonP).coarse
@@ -41,11 +47,12 @@ def modelObs (buf : Bytes) (qs : List UInt8) : Obs :=
     re := re
     reUn := match re with | .ok bs => ((pktUnmarshal {} bs).map canonP).coarse | _ => .err .other
     ids := match u with | .ok p => getExtensionIDs p.header | _ => []
-    gets := match u with | .ok p => qs.map (getExtension p.header) | _ => [] }
+    gets := match u with | .ok p => qs.map (getExtension p.header) | _ => []
+    unDirty := ((pktUnmarshal (dirtyReceiver prev) buf).map canonP).coarse }
 
 /-- sentence (1) -/
 def acceptsOK (w : Wire) (o : Obs) : Bool :=
-  o.un == .ok (canonP w.toPacket) && o.hn == .ok w.extEnd
+  (o.un == .ok (canonP w.toPacket) && o.unDirty == .ok (canonP w.toPacket)) && o.hn == .ok w.extEnd
 
 /-- what `GetExtension q` of the decoded header has to return, where the property says something:
     an id among the considered elements → the first such element's value; an id that stands
